@@ -6,7 +6,7 @@ from fractions import Fraction as F
 import numpy as np
 
 from harness import gallina as g
-from harness.util import import_df, js, attempt
+from harness.util import import_df, js, attempt, relayout, LAYOUTS
 
 df = import_df()
 EXHAUSTIVE = True   # all 2^L masks for every L up to the tier bound are enumerated
@@ -26,8 +26,11 @@ def build(c):
     arr = np.array([float(F(x)) for x in c["vals"]], dtype=dt).reshape(*sh, c["nvdim"])
     valid = np.array(c["valid"], dtype=bool).reshape(*sh)
     vd = c.get("vdims")
-    f = df.Field(mesh, nvdim=c["nvdim"], value=arr, valid=valid, unit=c.get("unit"), vdims=vd,
-                 vdim_mapping=c.get("vmap"), dtype=(int if c.get("int_dtype") else None))
+    lay = c.get("layout")
+    f = df.Field(mesh, nvdim=c["nvdim"], value=relayout(arr, lay), valid=relayout(valid, lay), unit=c.get("unit"),
+                 vdims=vd, vdim_mapping=c.get("vmap"), dtype=(int if c.get("int_dtype") else None))
+    if lay and c.get("layout_set"):
+        f.array = relayout(arr, lay)     # the setter keeps the caller's memory order
     if c.get("pre"):
         # the mesh is used (cell size, a first derivative) and then rescaled IN PLACE: a later derivative
         # must use the cell size the mesh has now
@@ -65,7 +68,7 @@ def line_case(L, mask, order, periodic, rng, restrict=True, poly=None):
     return dict(kind="line", sh=[L], nvdim=1, ax=0, order=order, cell=[g.qs(h)], p1=[g.qs(x0)],
                 periodic_axes=[0] if periodic else [], restrict=restrict,
                 vals=[g.qs(v) for v in vals], valid=[bool(b) for b in mask], poly=poly, int_dtype=int_dtype,
-                mag=g.qs(mag), pre=pre)
+                mag=g.qs(mag), pre=pre, layout=rng.choice(LAYOUTS + [None] * 6), layout_set=rng.random() < 0.5)
 
 
 def nd_case(rng, tier):
@@ -86,7 +89,7 @@ def nd_case(rng, tier):
     return dict(kind="nd", sh=sh, nvdim=nvdim, ax=ax, order=rng.choice([1, 2]), cell=[g.qs(x) for x in cell],
                 p1=[g.qs(x) for x in p1], periodic_axes=per, restrict=rng.random() < 0.8,
                 vals=[g.qs(v) for v in vals], valid=valid, dims=names, vdims=vd,
-                unit=rng.choice([None, "A/m", "T"]))
+                unit=rng.choice([None, "A/m", "T"]), layout=rng.choice(LAYOUTS), layout_set=rng.random() < 0.5)
 
 
 def generate(rng, tier):
